@@ -4,8 +4,11 @@ import (
 	"context"
 	"fmt"
 	"io"
+	"runtime"
 	"strings"
 	"sync"
+	"sync/atomic"
+	"time"
 
 	goat "github.com/avos-io/goat"
 	"github.com/avos-io/goat/gen/goatorepo"
@@ -16,6 +19,7 @@ import (
 
 	"goatverif/bed"
 	"goatverif/core"
+	"goatverif/quiesce"
 	"goatverif/svc"
 	"goatverif/wire"
 )
@@ -493,6 +497,119 @@ func c05IDs(tier string, seed int64, idx int, c c05Case, res *core.Result) {
 		}
 		total += n
 	}
+	// pairs of one unary call and one stream open started at the very same instant (a spin barrier,
+	// not a channel): ids allocated by the two kinds of call must never coincide
+	if prev := runtime.GOMAXPROCS(0); prev < 4 {
+		runtime.GOMAXPROCS(4) // two spinning starters plus the driver and the library's goroutines
+		defer runtime.GOMAXPROCS(prev)
+	}
+	for k := 0; k < 1500 && nconn == 1 && c.Topo == "" && len(res.Violations) == 0 && res.Verdict == core.Held; k++ {
+		var ready, goNow atomic.Int32
+		var wg sync.WaitGroup
+		errs := make([]error, 2)
+		wg.Add(2)
+		go func() {
+			defer wg.Done()
+			ready.Add(1)
+			for goNow.Load() == 0 {
+			}
+			tag := fmt.Sprintf("id-pair-%d-u", k)
+			got, err := svc.Invoke(context.Background(), cc, tag, []byte(tag))
+			if err != nil || string(got) != tag {
+				errs[0] = fmt.Errorf("unary %s: got %q err %v", tag, got, err)
+			}
+		}()
+		go func() {
+			defer wg.Done()
+			ready.Add(1)
+			for goNow.Load() == 0 {
+			}
+			tag := fmt.Sprintf("id-pair-%d-s", k)
+			s, err := svc.Open(context.Background(), cc, "bidi", tag, nil)
+			if err == nil {
+				err = s.Send([]byte(tag))
+			}
+			var got []byte
+			if err == nil {
+				got, err = s.Recv()
+			}
+			if err != nil || string(got) != tag {
+				errs[1] = fmt.Errorf("stream %s: echoed %q err %v", tag, got, err)
+				return
+			}
+			s.CloseSend()
+			s.Recv()
+		}()
+		for ready.Load() < 2 {
+			runtime.Gosched()
+		}
+		goNow.Store(1)
+		done := make(chan struct{})
+		go func() { wg.Wait(); close(done) }()
+		st, snap := "ok", (*quiesce.Snapshot)(nil)
+		select {
+		case <-done: // the usual case, without any snapshot
+		case <-time.After(2 * time.Second):
+			st, snap = settle(tier, func() bool {
+				select {
+				case <-done:
+					return true
+				default:
+					return false
+				}
+			})
+		}
+		if st == "stuck" {
+			res.ViolateD("call-never-returns", map[string]any{"goat_goroutines": goatParked(snap)}, "a unary call and a stream open started at the same instant: one of them never returns")
+			break
+		} else if st != "ok" {
+			res.Verdict, res.Note = core.Inconclusive, "watchdog"
+			break
+		}
+		for _, e := range errs {
+			if e != nil {
+				res.Violate("call-observed-foreign-data", "%v", e)
+			}
+		}
+		total += 2
+		res.Stat("simultaneous_unary_stream_pairs", 1)
+	}
+	// a half-close that reaches the server after the handler has returned (the caller cannot know
+	// yet: the trailer is still in the server's writer) belongs to the finished call, not to a new one
+	if nconn == 1 && c.Topo == "" && len(res.Violations) == 0 && res.Verdict == core.Held {
+		var armed atomic.Bool
+		parked := make(chan struct{}, 1)
+		release := make(chan struct{})
+		h.On("srv.writer.beforeWrite", func(uint64) {
+			if armed.CompareAndSwap(true, false) {
+				parked <- struct{}{}
+				<-release
+			}
+		})
+		tag := "id-late-halfclose"
+		b.Impl.SetStream(tag, func(t, k string, ss grpc.ServerStream) error { return nil })
+		before := b.Impl.Invoked()["s:"]
+		armed.Store(true)
+		s, err := svc.Open(context.Background(), cc, "bidi", tag, nil)
+		if err == nil {
+			if st, _ := settle(tier, func() bool { return len(parked) > 0 }); st == "ok" {
+				quiet(tier) // the handler has returned and the stream is closed on the server
+				s.CloseSend()
+				quiet(tier)
+				res.Stat("half_closes_after_server_end", 1)
+			}
+			close(release)
+			s.Recv()
+			quiet(tier)
+			if n := b.Impl.Invoked()["s:"] - before; n != 0 {
+				res.Violate("finished-call-run-again", "the half-close of a call the server had already finished started %d more handler(s) under its id", n)
+			}
+			total++
+		} else {
+			close(release)
+		}
+		h.On("srv.writer.beforeWrite", nil)
+	}
 	// a transport may report a write as failed although the envelope reached the peer (a context
 	// ending while the frame completes: the shipped websocket and HTTP transports do that). The call
 	// fails; its id is used up all the same, and the reply that still comes back is nobody's.
@@ -592,13 +709,13 @@ func init() {
 	core.Register(&core.Prop{
 		ID:         "C05",
 		Level:      "exploration",
-		Rule:       "(perm) for each configuration of k<=3 (thorough also 4) outstanding calls with per-call scripts of 1 (unary) or 2..6 envelopes, EVERY order-preserving merge (multiset permutation) of the scripts is played on a fresh connection: by a scripted server against a real client (replies, headers, bodies, trailers, distinct statuses per call) and by a scripted client against a real server (requests, opens, bodies, half-closes); each call/handler must observe exactly its own script. (ids) histories of 1280 calls per connection (quick 8, thorough 80 connections), 64 callers released from a barrier per burst, unary and streams mixed, every 4th history through the proxy in bursts of 12, every 4th over two client connections served by one Server object, and ending with calls whose write is reported failed although it was delivered: ids on the wire pairwise distinct, one id per call, every call sees only its own echo. (websocket) quick 6 / thorough 48 cases of 2..16 unary calls and 2..8 echo streams at once over the shipped websocket transport on loopback sockets with stalling writes, payloads 0..64 KiB: no call or stream sees foreign content (calls that merely fail are counted, not judged here; 30 s wall bound = inconclusive). distinct_nontrivial = interleavings enumerated (all distinct) + id histories.",
+		Rule:       "(perm) for each configuration of k<=3 (thorough also 4) outstanding calls with per-call scripts of 1 (unary) or 2..6 envelopes, EVERY order-preserving merge (multiset permutation) of the scripts is played on a fresh connection: by a scripted server against a real client (replies, headers, bodies, trailers, distinct statuses per call) and by a scripted client against a real server (requests, opens, bodies, half-closes); each call/handler must observe exactly its own script. (ids) histories of 1280 calls per connection (quick 8, thorough 80 connections), 64 callers released from a barrier per burst, unary and streams mixed, every 4th history through the proxy in bursts of 12, every 4th over two client connections served by one Server object, then 1500 pairs of one unary call and one stream open started at the same instant (spin barrier), a half-close arriving after the server finished the call, and calls whose write is reported failed although it was delivered: ids on the wire pairwise distinct, one id per call, every call sees only its own echo. (websocket) quick 6 / thorough 48 cases of 2..16 unary calls and 2..8 echo streams at once over the shipped websocket transport on loopback sockets with stalling writes, payloads 0..64 KiB: no call or stream sees foreign content (calls that merely fail are counted, not judged here; 30 s wall bound = inconclusive). distinct_nontrivial = interleavings enumerated (all distinct) + id histories.",
 		Plan:       func(tier string, seed int64) int { return len(c05List(tier)) },
 		Run:        c05Run,
 		Exhaustive: func(string) bool { return true },
 		MaxStats:   []string{"max_ids_on_one_connection"},
 		RequiredStats: func(string) []string {
-			return []string{"interleavings_client-perm", "interleavings_server-perm", "ids_checked", "ws_streams_checked", "ws_unary_calls_checked", "delivered_but_failed_writes"}
+			return []string{"interleavings_client-perm", "interleavings_server-perm", "ids_checked", "ws_streams_checked", "ws_unary_calls_checked", "delivered_but_failed_writes", "simultaneous_unary_stream_pairs", "half_closes_after_server_end"}
 		},
 		Assumptions: []string{"exhaustive = all interleavings of the listed script-length configurations; id histories are sampled schedules"},
 	})
